@@ -106,7 +106,9 @@ pub fn alphabet() -> Vec<Op> {
     for v in [1usize, 5, 40] {
         a.push(Op::Version(v));
     }
-    for s in ["", "x.png", "data:image/png;base64,iVBORw0KGgo=", "https://example.com/l.png?a=1&b=2"] {
+    // the last one holds a literal entity: it is a string like any other (an export that un-escapes or double-escapes it
+    // differs from the native builder given the same string)
+    for s in ["", "x.png", "data:image/png;base64,iVBORw0KGgo=", "https://example.com/l.png?a=1&b=2", "l.png?w=64&amp;h=64&lt;"] {
         a.push(Op::Image(s.to_string()));
     }
     for f in 0..3 {
@@ -406,7 +408,7 @@ pub fn replay(case: &Value) -> Result<Vec<(String, String)>, String> {
 
 pub fn run(ctx: &Ctx) -> Collector {
     let col = Collector::new("C17", "model_checking");
-    col.set_rule("E2: breadth-first search over SvgOptions setter programs to depth D (quick 3, thorough 4) from SvgOptions::new(), 80-operation alphabet {shape x6, margin x3, ecl x4, version x3, image x4, image_background_shape x3, image_size x4, image_position x5 (lengths 0,1,2,3), three colour setters x 16 strings (4 well-formed, 12 malformed)}; states de-duplicated on the implementation's own Debug string; EVERY (state, operation) transition is executed on the real object (setters may panic); in every distinct state qr_svg is compared with the native SvgBuilder configured from the abstract model for 5 small contents (empty, digits, alphanumeric, bytes, multi-byte UTF-8), and in all states of depth <= 1 also for the level-Q capacity edges +-1 of the three modes and an 8000-character content; qr() compared with the native default build on those contents and every length around the capacity edges; depth 1: all 3905 strings of length <= 5 over {# 0 f g e-acute} through each colour setter; oracle: no call panics; well-formed colour strings (#?RRGGBB[AA]) take effect, malformed ones are ignored or leave a valid colour; outputs byte-identical to native; non-trivial = a document or matrix was returned; distinct = distinct returned strings/arrays");
+    col.set_rule("E2: breadth-first search over SvgOptions setter programs to depth D (quick 3, thorough 4) from SvgOptions::new(), 81-operation alphabet {shape x6, margin x3, ecl x4, version x3, image x5 (one holding literal entities), image_background_shape x3, image_size x4, image_position x5 (lengths 0,1,2,3), three colour setters x 16 strings (4 well-formed, 12 malformed)}; states de-duplicated on the implementation's own Debug string; EVERY (state, operation) transition is executed on the real object (setters may panic); in every distinct state qr_svg is compared with the native SvgBuilder configured from the abstract model for 5 small contents (empty, digits, alphanumeric, bytes, multi-byte UTF-8), and in all states of depth <= 1 also for the level-Q capacity edges +-1 of the three modes and an 8000-character content; qr() compared with the native default build on those contents and every length around the capacity edges; depth 1: all 3905 strings of length <= 5 over {# 0 f g e-acute} through each colour setter; oracle: no call panics; well-formed colour strings (#?RRGGBB[AA]) take effect, malformed ones are ignored or leave a valid colour; outputs byte-identical to native; non-trivial = a document or matrix was returned; distinct = distinct returned strings/arrays");
     col.assume("hook H4 compiles src/wasm.rs unchanged for the host (64-bit usize); the real wasm32 target is not executed");
     col.assume("colours held by the option object are observed black-box by rendering a probe document; the Debug string is used only as an opaque de-duplication key");
     let thorough = ctx.tier.thorough();
